@@ -11,7 +11,9 @@ error answers, by a reset of the connection carrying the poll, or by the client 
 in other episodes some polls (varying positions and numbers) are never answered and run into the
 control-connection request timeout, with convergence before or after the deadline; and episodes
 with two or three overlapping waiters (application thread, DDL response path, pushed schema event,
-main thread) with different budgets that serialise on the agreement lock, each judged on its own polls.  Every poll the driver makes is recorded at the node with
+main thread) with different budgets that serialise on the agreement lock, each judged on its own polls;
+and DDL episodes (schema metadata enabled) where the metadata refresh that follows an agreeing poll fails
+(schema-table read answered with an error / never answered / unparsable row / connection reset).  Every poll the driver makes is recorded at the node with
 its virtual time and exactly the rows it was served; the verdict is recomputed from those polls.
 """
 import random
@@ -128,6 +130,17 @@ def run_history(seed):
         q = ' '.join(req['query'].lower().split())
         if q.startswith('select * from system_schema.keyspaces where keyspace_name'):
             name = req['query'].split("'")[1]
+            rf = ep.get('refresh_fault')
+            if rf and ep.get('active') and not ep.get('refresh_fault_fired') and cstate.conn.sim_id == ep.get('ddl_conn', {}).get(ep.get('uid')):
+                # the schema-table read that follows the agreeing poll of this DDL fails
+                ep['refresh_fault_fired'] = True
+                if rf == 'error':
+                    return node.error(cstate, req, 'server', 'scripted failure of the schema read')
+                if rf == 'unanswered':
+                    return ('silence',)
+                if rf == 'reset':
+                    return ('reset',)
+                return node.rows(cstate, req, KEYSPACE_COLS[:2], [[name, True]], 'system_schema', 'keyspaces')     # 'unparsable': no replication column
             return node.rows(cstate, req, KEYSPACE_COLS, [[name, True, [('class', 'org.apache.cassandra.locator.SimpleStrategy'),
                                                                          ('replication_factor', '1')]]], 'system_schema', 'keyspaces')
         if q.startswith('create keyspace') and uid_of(req['query']) is not None:
@@ -220,7 +233,8 @@ def run_history(seed):
              'ddl_fault': 0, 'ddl_timeout': 0, 'faults_fired': 0, 'faults_fired_reset': 0, 'timeouts_fired_while_polling': 0,
              'cut_short_without_any_agreeing_poll': 0, 'polls_decided_by_peer_on_non_default_port': 0, 'polls_unanswered': 0,
              'episodes_with_unanswered_poll': 0, 'episodes_unanswered_poll_no_agreement_in_budget': 0, 'overlap_episodes': 0, 'overlap_waiters_checked': 0,
-             'waiters_queued_behind_a_waiter_that_gave_up': 0, 'queued_waiters_that_then_saw_agreement': 0}
+             'waiters_queued_behind_a_waiter_that_gave_up': 0, 'queued_waiters_that_then_saw_agreement': 0, 'refresh_faults_fired': 0,
+             'refresh_fault_error': 0, 'refresh_fault_reset': 0, 'refresh_fault_unanswered': 0, 'refresh_fault_unparsable': 0}
     ep_log = []
     with env:
         cc_timeout = rng.choice([0.25, 0.45, 0.65])        # per-request timeout of the polls (Cluster.control_connection_timeout)
@@ -384,9 +398,14 @@ def run_history(seed):
                 overlap_episode(e)
                 continue
             mode = rng.choice(['direct', 'direct-default', 'ddl-on', 'ddl-off', 'ddl-timeout'])
+            refresh_fault = None         # ddl-on only: the metadata refresh that follows an agreeing poll fails in this way
             if e == neps - 1 and rng.random() < 0.6:
                 # either fault defuncts the pool connection that carried the poll (host marked down, reconnection ...): only as the last episode
-                mode = rng.choice(['ddl-fault-error', 'ddl-fault-reset'])
+                mode = rng.choice(['ddl-fault-error', 'ddl-fault-reset', 'ddl-on', 'ddl-on'])
+                if mode == 'ddl-on':
+                    refresh_fault = rng.choice(['error', 'reset'])       # these, too, defunct the connection that carried the request
+            elif mode == 'ddl-on' and rng.random() < 0.45:
+                refresh_fault = rng.choice(['unanswered', 'unparsable'])
             cut_short = mode in ('ddl-fault-error', 'ddl-fault-reset', 'ddl-timeout')
             budget = rng.choice([0.3, 0.5, 0.7, 1.0, 1.1, 1.5, 2.0])
             req_timeout = 60.0
@@ -421,6 +440,8 @@ def run_history(seed):
                 cluster.schema_metadata_enabled = (mode == 'ddl-on') or (cut_short and rng.random() < 0.5)
                 cluster.max_schema_agreement_wait = budget
                 uid = seed % 100000 * 10 + e
+                ep['uid'] = uid
+                ep['refresh_fault'] = refresh_fault
                 f = session.execute_async("CREATE KEYSPACE /*uid=%d*/ ks%d WITH replication = {'class': 'SimpleStrategy', 'replication_factor': 1}" % (uid, uid),
                                           timeout=req_timeout)
 
@@ -442,6 +463,13 @@ def run_history(seed):
             stats[{'direct': 'direct', 'direct-default': 'direct', 'ddl-on': 'ddl_on', 'ddl-off': 'ddl_off', 'ddl-fault-error': 'ddl_fault',
                    'ddl-fault-reset': 'ddl_fault', 'ddl-timeout': 'ddl_timeout'}[mode]] += 1
             polls = ep['polls']
+            if mode in ('ddl-on', 'ddl-off'):
+                # the request's own wait polls the connection that carried it, until the request completes (a failed metadata refresh makes the
+                # driver start another refresh in the background, which polls the control connection)
+                polls = [p for p in polls if p['conn'] == ep.get('ddl_conn', {}).get(ep.get('uid')) and p['t'] <= t_ret + 1e-9]
+                if ep.get('refresh_fault_fired'):
+                    stats['refresh_faults_fired'] += 1
+                    stats['refresh_fault_' + refresh_fault] += 1
             if cut_short:
                 # a schema-changing request whose agreement poll is cut short by a fault or by the client timeout: its result must not
                 # record agreement unless some poll served so far showed a single version among the live nodes
@@ -538,7 +566,9 @@ def run_history(seed):
                 viol.append((mech, 'verdict True but the last poll served versions %r' % (sorted(str(v) for v in poll_versions(last, known)),), wit))
             elif not verdict and expected:
                 i = agreed.index(True)
-                if len(poll_versions(polls[i], known, 'count-down')) != 1:
+                if mode == 'ddl-on' and ep.get('refresh_fault_fired') and agreed[-1] and t_ret - t0 < budget - 1e-3:
+                    mech = 'ddl-result-says-not-agreed-after-agreeing-poll-when-metadata-refresh-failed'
+                elif len(poll_versions(polls[i], known, 'count-down')) != 1:
                     mech = 'disagreement-reported-counting-peer-marked-down'
                 elif len(poll_versions(polls[i], known, None, True)) != 1:
                     mech = 'disagreement-reported-counting-host-not-in-metadata'
@@ -644,7 +674,10 @@ def run(ctx):
                      ("episodes_with_unanswered_poll_and_no_agreement_within_wait", 'episodes_unanswered_poll_no_agreement_in_budget'),
                      ("episodes_with_overlapping_waiters", 'overlap_episodes'), ("overlapping_waiters_checked", 'overlap_waiters_checked'),
                      ("waiters_queued_behind_a_waiter_that_gave_up", 'waiters_queued_behind_a_waiter_that_gave_up'),
-                     ("queued_waiters_that_then_saw_agreement", 'queued_waiters_that_then_saw_agreement')):
+                     ("queued_waiters_that_then_saw_agreement", 'queued_waiters_that_then_saw_agreement'),
+                     ("ddl_agreed_then_metadata_refresh_failed", 'refresh_faults_fired'), ("metadata_refresh_failed_by_error_answer", 'refresh_fault_error'),
+                     ("metadata_refresh_failed_by_connection_reset", 'refresh_fault_reset'), ("metadata_refresh_failed_by_timeout", 'refresh_fault_unanswered'),
+                     ("metadata_refresh_failed_by_unparsable_row", 'refresh_fault_unparsable')):
             ctx.count(k, stats[v])
         seen = set()
         for mech, what, wit in viol:
@@ -665,4 +698,6 @@ def run(ctx):
                           "ddl_cut_short_without_any_agreeing_poll": 100, "polls_decided_by_peer_on_non_default_native_port": 100,
                           "polls_unanswered_until_request_timeout": 200, "episodes_with_unanswered_poll_and_no_agreement_within_wait": 60,
                           "episodes_with_overlapping_waiters": 150, "overlapping_waiters_checked": 300, "waiters_queued_behind_a_waiter_that_gave_up": 80,
-                          "queued_waiters_that_then_saw_agreement": 25}
+                          "queued_waiters_that_then_saw_agreement": 25, "ddl_agreed_then_metadata_refresh_failed": 80,
+                          "metadata_refresh_failed_by_error_answer": 5, "metadata_refresh_failed_by_connection_reset": 5,
+                          "metadata_refresh_failed_by_timeout": 15, "metadata_refresh_failed_by_unparsable_row": 15}
